@@ -427,8 +427,8 @@ def items_source(f, t, op, depth=0):
             cur = term['args'][0]
             continue
         nm = (callee_name(term) or '').rsplit('::', 1)[-1]
-        if nm in IDENT_ADAPTORS or nm in ('borrow', 'as_ref'):
-            cur = term['args'][0]
+        if nm in IDENT_ADAPTORS or nm in ('borrow', 'as_ref', 'enumerate'):
+            cur = term['args'][0]          # (enumerate numbers the elements of the same sequence)
             continue
         return 'a factor of the product passes through %s' % nm
     return 'source chain too long'
@@ -449,7 +449,8 @@ def full_product_reduction(f, body, is_leaf, kind, want_sources):
     outer, inner = around
     srcs = []
     for d in (outer, inner):
-        if d['adaptors']:
+        # (`enumerate` numbers the elements, it neither drops nor reorders them: the element is component .1 of the item)
+        if [a for a in d['adaptors'] if a != 'enumerate']:
             return False, 'a component loop passes through adaptor(s) %s that can drop, truncate or pair up elements' % d['adaptors']
         s = items_source(f, n.tr, {'k': 'copy', 'l': d['iter_local'], 'p': []}) if d['iter_local'] is not None else 'no iterator local'
         if isinstance(s, str):
@@ -467,7 +468,11 @@ def full_product_reduction(f, body, is_leaf, kind, want_sources):
         return False, 'some pair of components is skipped (the pairwise call is conditional)'
     da, fa = n.item(lt['args'][0])
     db, fb = n.item(lt['args'][1])
-    if da is None or db is None or {da['header'], db['header']} != {outer['header'], inner['header']} or fa or fb:
+    def elem_path(d_, fp_):
+        want_ = ['1'] if (d_ is not None and d_['adaptors'] == ['enumerate']) else []
+        return [x for x in (fp_ or []) if not str(x).startswith('#')] == want_
+    if da is None or db is None or {da['header'], db['header']} != {outer['header'], inner['header']} or \
+            not elem_path(da, fa) or not elem_path(db, fb):
         return False, 'the pairwise call is not applied to (item of one loop, item of the other)'
     if kind == 'any':
         ok, why = n.bool_reduction([lbi])
